@@ -202,6 +202,8 @@ func (f *vf15Cfg) LookupSubscriberGroup(svlan, cvlan uint16) (subscriber.GroupMa
 	return subscriber.GroupMatch{}, false
 }
 
+var errVF15Invalid = fmt.Errorf("invalid")
+
 // ---- helpers ----
 func vf15IPNum(ip net.IP) uint32 {
 	ip4 := ip.To4()
@@ -314,7 +316,7 @@ func (e *vf15Env) dump(comp bool) string {
 	count := map[uint64]int{}
 	first := map[uint64]uint32{}
 	total := 0
-	if e.bs > 0 {
+	if e.bs > 0 && e.pend >= e.pstart {
 		total = (e.pend - e.pstart + 1) / e.bs
 	}
 	for i, x := range all {
@@ -510,6 +512,10 @@ func vf15Setup(kind string, f []string) (*vf15Env, error) {
 	raw, err := vf15ParseRaw(f)
 	if err != nil {
 		return nil, err
+	}
+	// the loader validates the configuration before any component sees it
+	if err := (&cgnatcfg.Config{Pools: map[string]*cgnatcfg.Pool{"p1": raw}}).Validate(); err != nil {
+		return nil, errVF15Invalid
 	}
 	e := &vf15Env{name: "p1", raw: raw, pm: NewPoolManager()}
 	if err := e.pm.ConfigurePool("p1", 1, raw); err != nil {
@@ -721,11 +727,26 @@ func vf15MP(head string, ops []string) []string {
 			continue
 		}
 		if !configured {
-			if err := pm.ConfigurePool("p1", 1, raw1); err != nil {
-				return append(outs, "cfgerr")
-			}
-			if err := pm.ConfigurePool("p2", 2, raw2); err != nil {
-				return append(outs, "cfgerr")
+			msg := func() (msg string) {
+				defer func() {
+					if r := recover(); r != nil {
+						m := fmt.Sprint(r)
+						if len(m) > 60 {
+							m = m[:60]
+						}
+						msg = "panic " + strings.ReplaceAll(m, " ", "_")
+					}
+				}()
+				if err := pm.ConfigurePool("p1", 1, raw1); err != nil {
+					return "cfgerr"
+				}
+				if err := pm.ConfigurePool("p2", 2, raw2); err != nil {
+					return "cfgerr"
+				}
+				return ""
+			}()
+			if msg != "" {
+				return append(outs, msg)
 			}
 			envs["1"].geometry()
 			envs["2"].geometry()
@@ -785,6 +806,10 @@ func vf15Case(line string) (res string) {
 			return
 		}
 		e, err := vf15Setup(kind, f[1:])
+		if err == errVF15Invalid {
+			outs = append(outs, "invalid")
+			return
+		}
 		if err != nil {
 			outs = append(outs, "cfgerr")
 			return
